@@ -1,0 +1,14 @@
+//go:build verif
+
+// Contracts for the verification machinery under /verif (contract-based deductive
+// verification). This file is comment-only, is excluded from every normal build by the
+// "verif" build tag, and declares nothing. See /verif/DESIGN.md §4.
+
+package protofields
+
+// a FHIR code element: a message named *Code whose `value` field is an enum or a string
+//@ func IsCodeField(message) (res)
+//@   requires message != nil && validItem(message)
+//@   defines res == isCodeS(message)
+//@   ensures res ==> pbByName(pbFields(pbDesc(pbReflect(message))), "value") != nil
+//@   assigns nothing
